@@ -30,13 +30,15 @@ def make_scratch():
 
 
 def apply_edits(root, edits):
-    for (rel, old, new) in edits:
+    for ed in edits:
+        rel, old, new = ed[0], ed[1], ed[2]
+        everywhere = len(ed) > 3 and ed[3] == "all"
         p = os.path.join(root, rel)
         with open(p) as fh:
             s = fh.read()
         if s.count(old) < 1:
             raise RuntimeError("mutant does not apply: %r not in %s" % (old[:60], rel))
-        s = s.replace(old, new, 1)
+        s = s.replace(old, new) if everywhere else s.replace(old, new, 1)
         with open(p, "w") as fh:
             fh.write(s)
 
